@@ -59,13 +59,17 @@ class RngWorld(World):
         accel = round(rng.choice([rng.uniform(1.2, 4), rng.uniform(2, 8), rng.uniform(4, 12)]), 2)
         if small:
             accel = max(accel, 2.2)  # interpreter mode: avoid the ~1100-call underflow path
-        ck = rng.choice(["zero", "zero", "even", "odd", "big"])
+        ck = rng.choice(["zero", "zero", "even", "odd", "big", "wide"])
         if ck == "zero":
             calib = [0, 0]
         elif ck == "even":
             calib = [rng.choice([2, 4, 6]), rng.choice([2, 4, 8])]
         elif ck == "odd":
             calib = [rng.choice([1, 3, 5]), rng.choice([3, 4, 7])]
+        elif ck == "wide":
+            # calibration block reaching towards the corners of the grid
+            calib = [max(1, int(ny * rng.uniform(0.6, 0.95))), max(1, int(nx * rng.uniform(0.6, 0.95)))]
+            accel = round(rng.uniform(1.2, 2.5), 2) if not small else max(2.2, accel)
         else:
             calib = [ny // 2, nx // 2]
         a = {
